@@ -229,47 +229,54 @@ class Source:
         return self.text.count("\n", 0, pos) + 1
 
     def locate(self, selector):
-        """selector: '::'-separated steps, each 'impl[<header substr>]', 'mod:<name>',
-        'fn:<name>', 'struct:<name>', 'enum:<name>', 'const:<name>', 'trait:<name>',
-        'macro:<name>'. Intermediate steps narrow the search range to the item body.
+        """selector: ' / '-separated steps, each 'impl[<header substr>]' ('=' prefix: exact header),
+        'mod:<name>', 'fn:<name>', 'struct:<name>', 'enum:<name>', 'const:<name>', 'trait:<name>',
+        'macro:<name>'. Intermediate steps narrow the search range to the item body. When several impl
+        blocks match a step, all are searched and the remaining steps must resolve in exactly one of them.
         Returns (start, end) of the last step's item. Ambiguity or absence -> ScanError."""
-        lo, hi = 0, len(self.text)
         steps = split_selector(selector)
-        span = None
-        for idx, st in enumerate(steps):
-            last = idx == len(steps) - 1
-            if st.startswith("impl["):
-                hdr = st[5:-1]
-                exact = hdr.startswith("=")
-                cands = find_impls(self.text, self.m, hdr.lstrip("="), lo, hi)
-                if exact:
-                    w = " ".join(hdr[1:].split())
-                    cands = [c for c in cands if c[4] == w]
-                if len(cands) != 1:
-                    raise ScanError("%s: impl[%s] matched %d blocks" % (self.path, hdr, len(cands)))
-                s, blo, bhi, e, _ = cands[0]
-                span = (s, e)
-                lo, hi = blo, bhi
-            else:
-                kind, _, name = st.partition(":")
-                if kind == "mod":
-                    pat = re.compile(r"(?<![A-Za-z0-9_])" + VIS + r"mod\s+" + re.escape(name) + r"\s*\{")
-                    c = [mt for mt in pat.finditer(self.m, lo, hi) if depth_between(self.m, lo, mt.start()) == 0]
-                    if len(c) != 1:
-                        raise ScanError("%s: mod %s matched %d" % (self.path, name, len(c)))
-                    b = c[0].end() - 1
-                    e = match_close(self.m, b)
-                    span = (c[0].start(), e + 1)
-                    lo, hi = b + 1, e
+        res = self._locate(steps, 0, len(self.text))
+        if len(res) != 1:
+            raise ScanError("%s: selector '%s' matched %d items" % (self.path, selector, len(res)))
+        return res[0]
+
+    def _locate(self, steps, lo, hi):
+        st = steps[0]
+        rest = steps[1:]
+        out = []
+        if st.startswith("impl["):
+            hdr = st[5:-1]
+            exact = hdr.startswith("=")
+            cands = find_impls(self.text, self.m, hdr.lstrip("="), lo, hi)
+            if exact:
+                w = " ".join(hdr[1:].split())
+                cands = [c for c in cands if c[4] == w]
+            for s, blo, bhi, e, _ in cands:
+                if not rest:
+                    out.append((s, e))
+                else:
+                    out += self._locate(rest, blo, bhi)
+            return out
+        kind, _, name = st.partition(":")
+        if kind == "mod":
+            pat = re.compile(r"(?<![A-Za-z0-9_])" + VIS + r"mod\s+" + re.escape(name) + r"\s*\{")
+            for mt in pat.finditer(self.m, lo, hi):
+                if depth_between(self.m, lo, mt.start()) != 0:
                     continue
-                cands = find_items(self.text, self.m, kind, name, lo, hi)
-                if len(cands) != 1:
-                    raise ScanError("%s: %s %s matched %d items" % (self.path, kind, name, len(cands)))
-                span = cands[0]
-                if not last:
-                    b = self.m.find("{", span[0], span[1])
-                    lo, hi = b + 1, span[1] - 1
-        return span
+                b = mt.end() - 1
+                e = match_close(self.m, b)
+                if not rest:
+                    out.append((mt.start(), e + 1))
+                else:
+                    out += self._locate(rest, b + 1, e)
+            return out
+        for span in find_items(self.text, self.m, kind, name, lo, hi):
+            if not rest:
+                out.append(span)
+            else:
+                b = self.m.find("{", span[0], span[1])
+                out += self._locate(rest, b + 1, span[1] - 1)
+        return out
 
 
 def split_selector(sel):
